@@ -7,6 +7,7 @@ package main
 import (
 	"bufio"
 	"context"
+	"database/sql"
 	"encoding/json"
 	"flag"
 	"fmt"
@@ -16,6 +17,7 @@ import (
 	"sort"
 	"strings"
 	"sync"
+	"sync/atomic"
 	"time"
 
 	"github.com/canonical/sqlair"
@@ -518,19 +520,34 @@ func cacheStress(r *rng, add func(violation)) {
 		stmts[i] = sqlair.MustPrepare(fmt.Sprintf("SELECT &Person.* FROM person WHERE id IN ($IntSlice[:]) -- stress %d", cacheStmtCounter), Person{}, IntSlice{})
 	}
 	dbs := make([]*sqlair.DB, nD)
+	sqldbs := make([]*sql.DB, nD)
 	fakes := make([]*fakeDB, nD)
+	// rendezvous inside the driver's Prepare: a goroutine that arrives waits a
+	// moment for a second one, so that concurrent prepares of one Statement
+	// overlap (both have missed the cache before either stores)
+	var waiting int32
+	gate := func(ev event) {
+		if ev.Kind != "prepare" {
+			return
+		}
+		atomic.AddInt32(&waiting, 1)
+		deadline := time.Now().Add(300 * time.Microsecond)
+		for atomic.LoadInt32(&waiting) < 2 && time.Now().Before(deadline) {
+			runtime.Gosched()
+		}
+		time.Sleep(20 * time.Microsecond)
+		atomic.AddInt32(&waiting, -1)
+	}
 	for i := range dbs {
 		sqldb, f := openFake()
+		f.gate = gate
 		dbs[i] = sqlair.NewDB(sqldb)
+		sqldbs[i] = sqldb
 		fakes[i] = f
 	}
 	desc := fmt.Sprintf("stress seed-state %d", r.s)
 	viol := func(prop, name, detail string) { add(violation{prop, name, hx(desc), detail}) }
 	var wg sync.WaitGroup
-	type call struct {
-		db  int
-		sql string
-	}
 	for g := 0; g < 8; g++ {
 		wg.Add(1)
 		gr := r.fork()
@@ -551,6 +568,16 @@ func cacheStress(r *rng, add func(violation)) {
 		}()
 	}
 	wg.Wait()
+	// everything is dropped: after garbage collection every driver statement
+	// must have been closed, exactly once
+	for i := range stmts {
+		stmts[i] = nil
+	}
+	for i := range dbs {
+		dbs[i] = nil
+	}
+	settle()
+	settle()
 	for di, f := range fakes {
 		prepared := map[int]string{}
 		closed := map[int]int{}
@@ -579,13 +606,14 @@ func cacheStress(r *rng, add func(violation)) {
 				}
 			}
 		}
+		for id := range prepared {
+			if closed[id] == 0 {
+				viol("C11", "driver-statement-never-closed", fmt.Sprintf("db %d stmt %d after everything was dropped and collected", di, id))
+			}
+		}
 	}
-	for i := range stmts {
-		stmts[i] = nil
-	}
-	for i := range dbs {
-		dbs[i].PlainDB().Close()
-		dbs[i] = nil
+	for i := range sqldbs {
+		sqldbs[i].Close()
 	}
 	for _, f := range fakes {
 		dropFakeDB(f.name)
